@@ -249,7 +249,7 @@ def finish_setup(world, case):
     if sspec.get("user_manager") not in (None, "memory"):
         from . import usermgr
 
-        users = usermgr.build(sspec["user_manager"], users, world.rng("usermgr"))
+        users = usermgr.build(sspec["user_manager"], users, world.rng("usermgr"), **({"delays": tuple(sspec["user_manager_delays"])} if sspec.get("user_manager_delays") else {}))
     kw = {k: sspec[k] for k in SERVER_KEYS if k in sspec}
     backend = {"memory": aioftp.MemoryPathIO, "pathio": aioftp.PathIO, "asyncpathio": aioftp.AsyncPathIO}[fsspec.get("backend", "memory")]
     server = world.make_server(users, backend=backend, **kw)
